@@ -215,12 +215,23 @@ def gen_star(rng, algo, nettype, k=None):
     for nm in names(rng, k):
         eps.append(mk_endpoint(rng, nettype, alloc, nm))
     conns = []
+    directed = rng.random() < 0.4
+    ports = list(range(k + rng.randint(0, 2)))
+    rng.shuffle(ports)
     for e in eps:
         if rng.random() < 0.5:
-            conns.append({"src": e["name"], "dst": rname})
+            c = {"src": e["name"], "dst": rname}
+            if directed and rng.random() < 0.6:
+                c["dst_dir"] = ports.pop()
         else:
-            conns.append({"src": rname, "dst": e["name"]})
-    return finish(rng, cfg, eps, [{"name": rname}], conns)
+            c = {"src": rname, "dst": e["name"]}
+            if directed and rng.random() < 0.6:
+                c["src_dir"] = ports.pop()
+        conns.append(c)
+    rt = {"name": rname}
+    if directed:
+        rt["degree"] = k + 2
+    return finish(rng, cfg, eps, [rt], conns)
 
 
 def mesh_parts(rng, algo, nettype, alloc, m, n, rname, sides=None, partial_local=False):
@@ -233,8 +244,13 @@ def mesh_parts(rng, algo, nettype, alloc, m, n, rname, sides=None, partial_local
     if partial_local and (m > 1 or n > 1):
         lm = rng.randint(1, m)
         ln = rng.randint(1, n)
-        x0 = rng.randint(0, m - lm)
-        y0 = rng.randint(0, n - ln)
+        if lm == m and ln == n:
+            if m > 1:
+                lm -= 1
+            else:
+                ln -= 1
+        x0 = rng.choice([0, m - lm])
+        y0 = rng.choice([0, n - ln])
     local = mk_endpoint(rng, nettype, alloc, nm[0], array=[lm, ln],
                         force_role=rng.choice(["dual", "dual", "mgr", "sbr"]))
     eps.append(local)
@@ -244,11 +260,30 @@ def mesh_parts(rng, algo, nettype, alloc, m, n, rname, sides=None, partial_local
     use_dirs = algo == "XY" or rng.random() < 0.6
     if use_dirs:
         c["dst_dir"] = "Eject"
+    if rng.random() < 0.25:
+        # the same pairing written with descending ranges on both sides
+        d = rng.randrange(2)
+        for key in ("src_range", "dst_range"):
+            lo, hi = c[key][d]
+            c[key][d] = [hi, lo]
     if rng.random() < 0.3:
         c = flip_conn(c)
     conns.append(c)
+    # a single endpoint hooked to one router by index (second local port)
+    if algo != "XY" and rng.random() < 0.2 and not partial_local:
+        sname = nm[5]
+        sep = mk_endpoint(rng, nettype, alloc, sname, force_role=rng.choice(["mgr", "dual", "sbr"]))
+        eps.append(sep)
+        sc = {"src": sname, "dst": rname, "dst_idx": [rng.randrange(m), rng.randrange(n)]}
+        if use_dirs:
+            sc["dst_dir"] = 5
+        conns.append(sc if rng.random() < 0.6 else flip_conn(sc))
+        extra_port = True
+    else:
+        extra_port = False
     if sides is None:
         sides = [s for s in DIRS if rng.random() < 0.4]
+    sides = sides[:4]
     for si, side in enumerate(sides):
         length = m if side in ("North", "South") else n
         ename = nm[1 + si]
@@ -271,7 +306,7 @@ def mesh_parts(rng, algo, nettype, alloc, m, n, rname, sides=None, partial_local
             c = flip_conn(c)
         conns.append(c)
         del arr_style
-    return eps, conns, use_dirs
+    return eps, conns, (6 if extra_port else 5)
 
 
 def flip_conn(c):
@@ -290,9 +325,9 @@ def gen_mesh(rng, algo, nettype, m=None, n=None, sides=None, partial_local=None)
     n = n or rng.randint(1, 3)
     rname = rng.choice(ROUTER_NAMES)
     if partial_local is None:
-        partial_local = rng.random() < 0.25
-    eps, conns, use_dirs = mesh_parts(rng, algo, nettype, alloc, m, n, rname, sides, partial_local)
-    rt = {"name": rname, "array": [m, n], "degree": 5}
+        partial_local = rng.random() < 0.3
+    eps, conns, degree = mesh_parts(rng, algo, nettype, alloc, m, n, rname, sides, partial_local)
+    rt = {"name": rname, "array": [m, n], "degree": degree}
     return finish(rng, cfg, eps, [rt], conns)
 
 
@@ -303,8 +338,9 @@ def gen_mesh_extra(rng, algo, nettype):
     alloc = AddrAlloc(rng, aw)
     m, n = rng.randint(1, 3), rng.randint(1, 3)
     rname = "group_router"
-    eps, conns, use_dirs = mesh_parts(rng, algo, nettype, alloc, m, n, rname, sides=[s for s in ["West", "South"] if rng.random() < 0.5], partial_local=False)
-    rt = {"name": rname, "array": [m, n], "degree": 5}
+    eps, conns, degree = mesh_parts(rng, algo, nettype, alloc, m, n, rname, sides=[s for s in ["West", "South"] if rng.random() < 0.5], partial_local=False)
+    use_dirs = any("dst_dir" in c or "src_dir" in c for c in conns)
+    rt = {"name": rname, "array": [m, n], "degree": degree}
     k = rng.randint(1, 3)
     extra = []
     for nm in rng.sample(["periph", "dbg", "rom", "gpio"], k):
